@@ -55,6 +55,7 @@ func (c *Ctx) EvalModel(rule string) *evalModel {
 	if E == nil {
 		return nil
 	}
+	c.preResolveRoles()
 	// the methods of the annotation record are role anchors (the rules reason about calls to them), not helpers to see through
 	if an := c.P.Named("annotations"); an != nil {
 		for _, fn := range c.P.Funcs {
@@ -464,4 +465,27 @@ func (m *evalModel) annsKind(c *Ctx, v ssa.Value) string {
 		return "frame"
 	}
 	return "?"
+}
+
+// preResolveRoles resolves the role anchors that families must not swallow (equality, hasher, extractor,
+// classifier, reference and document resolver, pointer walker) before any family is enumerated; failures
+// are reported by the rules that need the role, not here.
+func (c *Ctx) preResolveRoles() {
+	if c.rolesResolved {
+		return
+	}
+	c.rolesResolved = true
+	saved := c.R
+	c.R = core.NewReport(saved.Property, saved.Tier)
+	defer func() { c.R = saved }()
+	const rule = "roles"
+	c.Equality(rule)
+	c.NumberExtractor(rule)
+	c.TypeClassifier(rule)
+	if h := c.Hasher(rule); h != nil {
+		c.hashWriter(h)
+	}
+	c.resolverModel(rule)
+	c.pointerWalker(rule)
+	c.pointerFieldLookup(rule)
 }
